@@ -32,13 +32,19 @@ def rowLine (n a : Nat) (nd : Node FDet) : String :=
   s!"r {a} " ++ joinSp ((List.range n).map fun x =>
     if x == a then "-" else stChar (nd.view x) ++ toString (nd.member x).inc)
 
-def msgLine (m : Msg) : String :=
+def msgLineTag (tag : String) (m : Msg) : String :=
   let k := match m.kind with | .ping => "p" | .ack => "a"
   let f := match m.ifor with | none => "-" | some x => toString x
-  s!"m {m.id} {k} {m.src} {m.dst} {f} {updsStr m.upds}"
+  s!"{tag} {m.id} {k} {m.src} {m.dst} {f} {updsStr m.upds}"
+
+/-- `m …` = handed to the network and routed, `l …` = refused by the network (partition) -/
+def msgLine (m : Msg) : String := msgLineTag "m" m
 
 def tkChar : TKind → String
   | .ind => "i" | .susp => "s"
+
+def natsComma (s : String) : List Nat :=
+  if s == "" || s == "-" then [] else (s.splitOn ",").map natD
 
 def parseAct (ts : List String) : Option (Act × String) :=
   match ts with
@@ -46,6 +52,8 @@ def parseAct (ts : List String) : Option (Act × String) :=
   | "D" :: id :: now :: _ => some (.deliver (natD id) (natD now), "")
   | "O" :: a :: x :: k :: now :: shuf => some (.timeout (natD a) (natD x) (natD now) (nats shuf), k)
   | "C" :: x :: now :: _ => some (.crash (natD x) (natD now), "")
+  | ["P", now, h, ga, gb] => some (.cut (natD h) (natsComma ga) (natsComma gb) (natD now), "")
+  | ["H", now, h] => some (.heal (natD h) (natD now), "")
   | _ => none
 
 def sortNat (l : List Nat) : List Nat := l.mergeSort (· ≤ ·)
@@ -61,8 +69,14 @@ def overdue (n : Nat) (s : Sys FDet) (now : Nat) : List String :=
       | some t => if t.fire < now then some s!"overdue timer {a} {x}" else none
       | none => none
 
-def newMsgs (pre post : Sys FDet) : List String :=
-  (post.soup.filter fun m => m.id ≥ pre.nextId).map msgLine
+/-- the messages sent by the last commit in id order, routed (`m`) or refused (`l`) -/
+def sentLines (pre post : Sys FDet) : List String :=
+  let routed := (post.soup.filter fun m => m.id ≥ pre.nextId).map fun m => (m.id, msgLine m)
+  let lost := if post.nextId == pre.nextId then [] else
+    (post.lost.filter fun m => m.id ≥ pre.nextId).map fun m => (m.id, msgLineTag "l" m)
+  ((routed ++ lost).mergeSort fun x y => x.1 ≤ y.1).map (·.2)
+
+def newMsgs (pre post : Sys FDet) : List String := sentLines pre post
 
 /-- output lines for one action (after the echo line) -/
 def actLines (c : Cfg) (s : Sys FDet) (act : Act) (k : String) : Sys FDet × List String :=
@@ -76,13 +90,14 @@ def actLines (c : Cfg) (s : Sys FDet) (act : Act) (k : String) : Sys FDet × Lis
       let al := aliveOrder c.n a nd1
       let resh := !al.isEmpty && nd1.pidx ≥ al.length
       let bad := if resh && sortNat shuf != sortNat al then ["badshuf"] else []
-      let ms := (s'.soup.filter fun m => m.id ≥ s.nextId)
+      let ms := if s'.nextId == s.nextId then [] else
+        (s'.soup.filter fun m => m.id ≥ s.nextId) ++ (s'.lost.filter fun m => m.id ≥ s.nextId)
       let tl := match ms with
         | m :: _ => match (s'.node a).pendOf m.dst with
           | some t => [s!"t {m.dst} {tkChar t.kind} {t.fire}"]
           | none => ["t none"]
         | [] => []
-      (s', bad ++ [rowLine c.n a (s'.node a)] ++ ms.map msgLine ++ tl ++ [s!"k {(s'.node a).nextTick}"])
+      (s', bad ++ [rowLine c.n a (s'.node a)] ++ sentLines s s' ++ tl ++ [s!"k {(s'.node a).nextTick}"])
   | .deliver id _ =>
     match s.soup.find? (fun m => m.id == id) with
     | none => (s', ["bad deliver"])
@@ -108,6 +123,8 @@ def actLines (c : Cfg) (s : Sys FDet) (act : Act) (k : String) : Sys FDet × Lis
           | .susp => []
         (s', bad ++ [rowLine c.n a (s'.node a)] ++ newMsgs s s' ++ tl)
   | .crash _ _ => (s', [])
+  | .cut .. => (s', [])
+  | .heal .. => (s', [])
 
 def parseCfg (ts : List String) : Cfg × FDet :=
   match ts with
@@ -138,12 +155,13 @@ def runCluster (hdr : List String) (body : List String) : List String :=
         | ["J", now, src, dst, ups] =>
           -- harness-forged gossip (outside `step`; the judge then skips clauses 1 and 2)
           let m : Msg := ⟨s.nextId, .ping, natD src, natD dst, natD now, none, parseUpds ups⟩
-          go { s with now := natD now, soup := s.soup ++ [m], nextId := s.nextId + 1 }
-            ((acc.push s!"J {now}").push (msgLine m)) ls
+          go { s with now := natD now, soup := s.soup ++ s.routed [m], nextId := s.nextId + 1 }
+            ((acc.push s!"J {now}").push (msgLineTag (if s.blocked m.src m.dst then "l" else "m") m)) ls
         | _ => go s acc ls
       | some (act, k) =>
         let od := overdue c.n s act.time
-        let echo := joinSp (ts.take (match act with | .tick .. => 3 | .deliver .. => 3 | .timeout .. => 5 | .crash .. => 3))
+        let echo := joinSp (ts.take (match act with
+          | .tick .. => 3 | .deliver .. => 3 | .timeout .. => 5 | .crash .. => 3 | .cut .. => 5 | .heal .. => 3))
         let (s', out) := actLines c s act k
         go s' (((acc ++ od.toArray).push echo) ++ out.toArray) ls
   let (s, acc) := go s0 #[] body
@@ -170,6 +188,8 @@ def scan (st : JSt) (ts : List String) : JSt :=
   | "T" :: _ :: now :: _ => { st with now := natD now }
   | "O" :: _ :: _ :: _ :: now :: _ => { st with now := natD now }
   | "J" :: now :: _ => { st with now := natD now }
+  | "P" :: now :: _ => { st with now := natD now }
+  | "H" :: now :: _ => { st with now := natD now }
   | "C" :: x :: now :: _ => { st with now := natD now, crashAt := lset none st.crashAt (natD x) (some (natD now)) }
   | "D" :: id :: now :: _ =>
     let t := natD now
@@ -188,32 +208,40 @@ def judgeCluster (hdr : List String) (body : List String) : List String :=
     let fin := lines.foldl scan {}
     let delta := fin.maxDelay
     let forged := lines.any fun ts => ts.head? == some "J"
-    let ok := Spec.boundOk delta half susp && !forged
+    let refused := (lines.filter fun ts => ts.head? == some "l").length
+    -- clauses 1 and 2 speak about a network that delivers every message within the bound
+    let ok := Spec.boundOk delta half susp && Spec.lossless refused && !forged
     let k := (fin.crashAt.filter Option.isSome).length
-    let initRow : List Spec.Cell := List.replicate n ⟨.alive, 0⟩
-    let rec go (now : Nat) (crashed : List Bool) (rows : List (List Spec.Cell)) (i : Nat) :
+    let noDead : List (Option Nat) := List.replicate n none
+    -- `deads a x` = highest incarnation at which node a has reported x DEAD (`Spec.noteDead`)
+    let rec go (now : Nat) (crashed : List Bool) (deads : List (List (Option Nat))) (i : Nat) :
         List (List String) → List String
       | [] => ["ok"]
       | ts :: rest =>
         match ts with
-        | "T" :: _ :: t :: _ => go (natD t) crashed rows (i + 1) rest
-        | "O" :: _ :: _ :: _ :: t :: _ => go (natD t) crashed rows (i + 1) rest
-        | "D" :: _ :: t :: _ => go (natD t) crashed rows (i + 1) rest
-        | "C" :: x :: t :: _ => go (natD t) (lset false crashed (natD x) true) rows (i + 1) rest
+        | "T" :: _ :: t :: _ => go (natD t) crashed deads (i + 1) rest
+        | "O" :: _ :: _ :: _ :: t :: _ => go (natD t) crashed deads (i + 1) rest
+        | "D" :: _ :: t :: _ => go (natD t) crashed deads (i + 1) rest
+        | "P" :: t :: _ => go (natD t) crashed deads (i + 1) rest
+        | "H" :: t :: _ => go (natD t) crashed deads (i + 1) rest
+        | "C" :: x :: t :: _ => go (natD t) (lset false crashed (natD x) true) deads (i + 1) rest
         | "r" :: a :: cells =>
           let a := natD a
           let row := cells.map parseCell
-          let old := lget initRow rows a
+          let old := lget noDead deads a
           let sts := row.map (·.st)
           if row.length != n then [s!"viol membership/malformed-row line {i}"]
-          else if !((List.range n).all fun x => x == a || Spec.reviveOk (lget default old x) (lget default row x)) then
+          else if !((List.range n).all fun x => x == a || Spec.aliveOk (lget none old x) (lget default row x)) then
             [s!"viol membership/revive/dead-to-alive-without-higher-incarnation node {a} t {now} line {i}"]
           else if ok && !Spec.noDeadLive crashed a sts then
             [s!"viol membership/false-death/live-member-marked-dead node {a} t {now} delta {delta} line {i}"]
           else if ok && !Spec.detectedRow n k iv half delta fin.crashAt a now sts then
             [s!"viol membership/detect/still-alive-after-bound node {a} t {now} delta {delta} line {i}"]
-          else go now crashed (lset initRow rows a row) (i + 1) rest
-        | _ => go now crashed rows (i + 1) rest
+          else
+            let old' := (List.range n).map fun x =>
+              if x == a then none else Spec.noteDead (lget none old x) (lget default row x)
+            go now crashed (lset noDead deads a old') (i + 1) rest
+        | _ => go now crashed deads (i + 1) rest
     go 0 [] [] 0 lines
   | _ => ["viol membership/malformed-judge-header"]
 
@@ -237,27 +265,31 @@ def runPhi (hdr : List String) (body : List String) : List String :=
     go d0 body
   | _ => ["bad-mode"]
 
-def fle (a b : Float) : Bool := a ≤ b
-
 /-- phi samples between two heartbeats must be non-decreasing in time (samples arrive in
-    increasing time order); `is_available` must equal `phi < threshold` -/
+    increasing time order), `+∞` included: after `+∞` only `+∞`; `is_available` must equal
+    `phi < threshold`.  Values are compared as `PV`s obtained from the bit patterns (no floats). -/
 def judgePhi (hdr : List String) (body : List String) : List String :=
   match hdr with
   | [thr] =>
-    let thr := floatOfBits thr
-    let rec go (seg : List Float) (lastT : Nat) (i : Nat) : List String → List String
-      | [] => if Spec.nondecreasing fle seg.reverse then ["ok"] else [s!"viol phi/decreased-without-heartbeat line {i}"]
+    match Spec.pvOfBits (natD thr) with
+    | none => ["viol phi/malformed-judge-header"]
+    | some thr =>
+    let rec go (seg : List PV) (lastT : Nat) (i : Nat) : List String → List String
+      | [] => if Spec.nondecreasing Spec.pvLe seg.reverse then ["ok"] else [s!"viol phi/decreased-without-heartbeat line {i}"]
       | l :: ls =>
         match toks l with
         | "h" :: _ =>
-          if Spec.nondecreasing fle seg.reverse then go [] 0 (i + 1) ls
+          if Spec.nondecreasing Spec.pvLe seg.reverse then go [] 0 (i + 1) ls
           else [s!"viol phi/decreased-without-heartbeat line {i}"]
         | ["q", ns, av, phibits] =>
-          let p := floatOfBits phibits
-          if natD ns < lastT then [s!"viol phi/malformed-samples-not-increasing line {i}"]
-          else if (av == "1") != (p < thr) then [s!"viol phi/available-inconsistent-with-threshold line {i}"]
-          else if p < 0.0 || p != p then [s!"viol phi/negative-or-nan line {i}"]
-          else go (p :: seg) (natD ns) (i + 1) ls
+          match Spec.pvOfBits (natD phibits) with
+          | none => [s!"viol phi/negative-or-nan line {i}"]
+          | some p =>
+            if natD ns < lastT then [s!"viol phi/malformed-samples-not-increasing line {i}"]
+            else if (av == "1") != Spec.pvLt p thr then [s!"viol phi/available-inconsistent-with-threshold line {i}"]
+            else if !(match seg with | [] => true | q :: _ => Spec.pvLe q p) then
+              [s!"viol phi/decreased-without-heartbeat line {i}"]
+            else go (p :: seg) (natD ns) (i + 1) ls
         | _ => go seg lastT (i + 1) ls
     go [] 0 0 body
   | _ => ["viol phi/malformed-judge-header"]
